@@ -596,3 +596,21 @@ Proof.
     + eapply A_ref_ok; [exact Ek | apply IH; exact E1].
     + eapply A_ref_fail; [exact Ek | apply IH; exact E1].
 Qed.
+
+(* the reference derivation is unique: "the" action list of a successful parse *)
+Theorem PegA_deterministic g att vt A e s o r1 : PegA g att vt A e s o r1 -> forall r2, PegA g att vt A e s o r2 -> r1 = r2.
+Proof.
+  induction 1; intros r2 H2; inversion H2; subst; try reflexivity;
+  repeat match goal with
+  | IH : forall r, PegA _ _ _ ?A ?e ?s ?o r -> Some ?x = r, H : PegA _ _ _ ?A ?e ?s ?o (Some ?y) |- _ => apply IH in H; inversion H; subst; clear H
+  | IH : forall r, PegA _ _ _ ?A ?e ?s ?o r -> Some ?x = r, H : PegA _ _ _ ?A ?e ?s ?o None |- _ => apply IH in H; discriminate
+  | IH : forall r, PegA _ _ _ ?A ?e ?s ?o r -> None = r, H : PegA _ _ _ ?A ?e ?s ?o (Some ?y) |- _ => apply IH in H; discriminate
+  end; try reflexivity;
+  try (match goal with IH : forall r, PegA _ _ _ ?A ?e ?s ?o r -> ?x = r, H : PegA _ _ _ ?A ?e ?s ?o ?y |- _ => apply IH in H; subst; reflexivity end).
+  all: try (match goal with H1 : nth_error ?gg ?k = Some _, H2 : nth_error ?gg ?k = Some _ |- _ => rewrite H1 in H2; inversion H2; subst end).
+  all: repeat match goal with
+  | IH : forall r, PegA _ _ _ ?A ?e ?s ?o r -> Some ?x = r, H : PegA _ _ _ ?A ?e ?s ?o (Some ?y) |- _ => apply IH in H; inversion H; subst; clear H
+  | IH : forall r, PegA _ _ _ ?A ?e ?s ?o r -> Some ?x = r, H : PegA _ _ _ ?A ?e ?s ?o None |- _ => apply IH in H; discriminate
+  | IH : forall r, PegA _ _ _ ?A ?e ?s ?o r -> None = r, H : PegA _ _ _ ?A ?e ?s ?o (Some ?y) |- _ => apply IH in H; discriminate
+  end; try reflexivity.
+Qed.
